@@ -18,22 +18,17 @@ from ..tlc import MachineryError, make_cfg, run_tlc
 TOP_VALUES = {"a": 1, "b": 2, "c": 3}
 NESTED_VALUES = {"a": 11, "b": 12, "c": 13}
 PARAM_VALUES = {"p": 101, "a": 102, "b": 103}
+DEFAULT_VALUES = {"a": 5001, "b": 5002, "c": 5003}
 CONST_VALUE = 777
 FUNC_VALUE = 900
 
 
-def build(case: dict, names: dict = None):
-    """returns (S, D, SN, DN, converter-or-exception, argument values)"""
+def build_recipe(case, S, D, SNm, DNm, nm):
     from adaptix import P
-    from adaptix.conversion import from_param, impl_converter, link, link_constant, link_function
-    nm = names or {}
+    from adaptix.conversion import allow_unlinked_optional, from_param, link, link_constant, link_function
 
     def N(x):
         return nm.get(x, x)
-    SNm = dataclasses.make_dataclass(N("SrcNested"), [(N(f), int) for f in sorted(case["SN"])])
-    DNm = dataclasses.make_dataclass(N("DstNested"), [(N(f), int) for f in sorted(case["DN"])])
-    S = dataclasses.make_dataclass(N("Src"), [((N(f), int) if f != "n" else (N("n"), SNm)) for f in sorted(case["SF"])])
-    D = dataclasses.make_dataclass(N("Dst"), [((N(f), int) if f != "n" else (N("n"), DNm)) for f in sorted(case["DF"])])
 
     def pred(name, mode, top_cls, nested_cls):
         if mode == "any":
@@ -48,8 +43,28 @@ def build(case: dict, names: dict = None):
             recipe.append(link(from_param(N(pr["p"])), dst))
         elif pr["t"] == "const":
             recipe.append(link_constant(dst, value=CONST_VALUE))
+        elif pr["t"] == "allow":
+            recipe.append(allow_unlinked_optional(dst))
         else:
             recipe.append(link_function(lambda model: FUNC_VALUE, dst))
+    return recipe
+
+
+def build(case: dict, names: dict = None):
+    """returns (S, D, SN, DN, converter-or-exception, argument values)"""
+    from adaptix import P
+    from adaptix.conversion import allow_unlinked_optional, from_param, impl_converter, link, link_constant, link_function
+    nm = names or {}
+
+    def N(x):
+        return nm.get(x, x)
+    SNm = dataclasses.make_dataclass(N("SrcNested"), [(N(f), int) for f in sorted(case["SN"])])
+    DNm = dataclasses.make_dataclass(N("DstNested"), [(N(f), int) for f in sorted(case["DN"])])
+    S = dataclasses.make_dataclass(N("Src"), [((N(f), int) if f != "n" else (N("n"), SNm)) for f in sorted(case["SF"])])
+    D = dataclasses.make_dataclass(N("Dst"), [((N(f), int, dataclasses.field(default=DEFAULT_VALUES[f])) if f in case.get("DO", ()) else (N(f), int)) if f != "n"
+                                              else (N("n"), DNm) for f in sorted(case["DF"])])
+
+    recipe = build_recipe(case, S, D, SNm, DNm, nm)
     params = [N(p) for p in case["PS"]]
     src_name = N("srcmodel")
     sig = inspect.Signature(
@@ -71,6 +86,10 @@ def build(case: dict, names: dict = None):
     return S, D, SNm, DNm, conv, src, args, sig
 
 
+def _recipe_only(case, S, D, SNm, DNm, nm):
+    return build_recipe(case, S, D, SNm, DNm, nm)
+
+
 def term_value(t: dict, case: dict) -> Any:
     k = t["k"]
     if k == "src":
@@ -81,6 +100,8 @@ def term_value(t: dict, case: dict) -> Any:
         return CONST_VALUE
     if k == "func":
         return FUNC_VALUE
+    if k == "default":
+        return None        # filled by the caller: the declared default of the field
     raise ValueError(k)
 
 
@@ -132,7 +153,7 @@ def run_case(case: dict, out: dict, names: dict = None) -> None:
         add("wrong_result_class", f"{res!r}")
         return
     for f, t in case["top"].items():
-        got, want = getattr(res, N(f)), term_value(t, case)
+        got, want = getattr(res, N(f)), (DEFAULT_VALUES[f] if t["k"] == "default" else term_value(t, case))
         if got != want:
             add("field_from_wrong_source", f"Dst.{f} = {got!r}, the linking rules give {t['k']}:{t['level']}.{t['n']} = {want!r}")
     if "n" in case["DF"]:
@@ -146,6 +167,22 @@ def run_case(case: dict, out: dict, names: dict = None) -> None:
                     add("field_from_wrong_source", f"Dst.n.{f} = {got!r}, the linking rules give {t['k']}:{t['level']}.{t['n']} = {want!r}")
     if inspect.signature(conv) != sig or conv.__name__ != N("convert_it"):
         add("stub_signature_not_preserved", f"{inspect.signature(conv)} / {conv.__name__}")
+    # the same pair asked from the module-level retort with another recipe, then with this one again: each call obeys its own recipe
+    if not case["PS"] and case["top"]:
+        from adaptix import P
+        from adaptix.conversion import get_converter, link_constant
+        f0 = sorted(case["top"])[0]
+        rec = _recipe_only(case, S, D, SNm, DNm, nm)
+        try:
+            c_other = get_converter(S, D, recipe=[link_constant(P[D][N(f0)], value=555), *rec])
+            c_this = get_converter(S, D, recipe=rec)
+            c_other2 = get_converter(S, D, recipe=[link_constant(P[D][N(f0)], value=555), *rec])
+            v1, v2, v3 = getattr(c_other(src), N(f0)), getattr(c_this(src), N(f0)), getattr(c_other2(src), N(f0))
+            want2 = DEFAULT_VALUES[f0] if case["top"][f0]["k"] == "default" else term_value(case["top"][f0], case)
+            if (v1, v2, v3) != (555, want2, 555):
+                add("recipe_of_an_earlier_get_converter_call_reused", f"Dst.{f0} via three get_converter calls with alternating recipes: {(v1, v2, v3)}, documented {(555, want2, 555)}")
+        except Exception as e:  # noqa: BLE001
+            add("get_converter_with_recipe_raises", f"{type(e).__name__}: {str(e)[:120]}")
     # a second, equal call gives an equal, distinct object (C20 rides along)
     res2 = conv(src, *args)
     if res2 != res or res2 is res:
